@@ -42,6 +42,7 @@ struct Rec {
   bool window = false; // true only while the library call runs
   int throwBudget = 0; // 0: disarmed; n > 0: the n-th throwing-capable event throws
   int throwEvents = 0; // throwing-capable events seen since arm()
+  bool thrownByMove = false; // the injected exception came out of a move constructor / move assignment
   long cmpCalls = 0;
   std::unordered_map<const void *, int> tok;
   int nextTok = 1;
@@ -87,12 +88,16 @@ struct Rec {
   void arm(int k) {
     throwBudget = k;
     throwEvents = 0;
+    thrownByMove = false;
   }
   void disarm() { throwBudget = 0; }
   // a throwing-capable event of an element (construction / copy / copy assignment)
-  void maybeThrow() {
+  void maybeThrow(bool byMove = false) {
     ++throwEvents;
-    if (throwBudget > 0 && --throwBudget == 0) throw Injected();
+    if (throwBudget > 0 && --throwBudget == 0) {
+      thrownByMove = byMove;
+      throw Injected();
+    }
   }
   // a throwing-capable event of an allocator
   void maybeThrowAlloc() {
@@ -137,6 +142,7 @@ struct ETC {  // trivially copyable: no events can be recorded
 #endif
   int id_() const { return 0; }
   int mv_() const { return 0; }
+  void heal_() const {}
   void check_() const {}
 };
 static_assert(std::is_trivially_copyable<ETC>::value, "");
@@ -153,6 +159,7 @@ struct ETC1 {  // one byte, trivially copyable: 8 of them share the storage of a
 #endif
   int id_() const { return 0; }
   int mv_() const { return 0; }
+  void heal_() const {}
   void check_() const {}
 };
 
@@ -189,7 +196,7 @@ struct EObj : std::conditional<Reloc, RelocTag, NoTag>::type {
   }
   EObj(EObj &&o) noexcept(NoexceptMove) : v(o.v), mv(o.mv), self(this) {
     o.check_();
-    if (!NoexceptMove) R.maybeThrow();
+    if (!NoexceptMove) R.maybeThrow(true);
     id = R.nextId++;
     R.prim("mctor", id, this, o.id, &o);
     o.v = -1;
@@ -207,7 +214,7 @@ struct EObj : std::conditional<Reloc, RelocTag, NoTag>::type {
   EObj &operator=(EObj &&o) noexcept(NoexceptMove) {
     check_();
     o.check_();
-    if (!NoexceptMove) R.maybeThrow();
+    if (!NoexceptMove) R.maybeThrow(true);
     // a self move assignment of an object whose value has already been taken (the middle step of std::swap(x, x))
     // is harmless; one of an object holding a value is what property C02 forbids
     R.prim(this == &o && mv ? "masg_self_mf" : "masg", id, this, o.id, &o);
@@ -231,6 +238,7 @@ struct EObj : std::conditional<Reloc, RelocTag, NoTag>::type {
 #endif
   int id_() const { return id; }
   int mv_() const { return mv; }
+  void heal_() const { const_cast<EObj *>(this)->mv = 0; }
 };
 using ETR = EObj<true>;     // declares itself trivially relocatable, not trivially copyable
 using ENTR = EObj<false>;   // neither: may only be moved through its own operations (self pointer)
